@@ -6,6 +6,7 @@
 package verif
 
 import (
+	mrand "math/rand"
 	"encoding/json"
 	"fmt"
 	"math/big"
@@ -51,22 +52,78 @@ func loadReplay() {
 	}
 }
 
-func input(name string) *big.Int {
-	loadReplay()
-	if v, ok := replayInputs[name]; ok {
-		return v
-	}
-	return new(big.Int)
+// Search mode (VERIF_SEARCH=N): trial 0 replays the model exactly; later trials keep each model value with
+// probability 1/2 and otherwise draw boundary-biased random values. Used to concretise counterexamples of
+// abstract obligations (inductive steps, contract-level models) into inputs of the real code.
+var (
+	trial     int
+	rng       *mrand.Rand
+	drawn     map[string]*big.Int
+	drawOrder []string
+)
+
+func StartTrial(t int, seed int64) {
+	trial = t
+	rng = mrand.New(mrand.NewSource(seed + int64(t)*7919))
+	drawn = map[string]*big.Int{}
+	drawOrder = nil
+	ghostStore = map[string]interface{}{}
 }
 
-func AnyU64(name string) uint64 { return input(name).Uint64() }
-func AnyU32(name string) uint32 { return uint32(input(name).Uint64()) }
-func AnyU16(name string) uint16 { return uint16(input(name).Uint64()) }
-func AnyU8(name string) uint8   { return uint8(input(name).Uint64()) }
-func AnyInt(name string) int    { return int(input(name).Uint64()) }
-func AnyI64(name string) int64  { return int64(input(name).Uint64()) }
-func AnyI8(name string) int8    { return int8(input(name).Uint64()) }
-func AnyBool(name string) bool  { return input(name).Sign() != 0 }
+func DumpTrial() string {
+	m := map[string]string{}
+	for k, v := range drawn {
+		m[k] = v.String()
+	}
+	b, _ := json.Marshal(map[string]interface{}{"inputs": m, "cases": replayCases})
+	return string(b)
+}
+
+func input(name string, bits int) *big.Int {
+	loadReplay()
+	if drawn == nil {
+		drawn = map[string]*big.Int{}
+	}
+	if v, ok := drawn[name]; ok {
+		return v
+	}
+	mv, has := replayInputs[name]
+	var v *big.Int
+	switch {
+	case trial == 0 || rng == nil:
+		if has {
+			v = mv
+		} else {
+			v = new(big.Int)
+		}
+	case has && rng.Intn(2) == 0:
+		v = mv
+	default:
+		lim := new(big.Int).Lsh(big.NewInt(1), uint(bits))
+		switch rng.Intn(6) {
+		case 0:
+			v = new(big.Int)
+		case 1:
+			v = new(big.Int).Sub(lim, big.NewInt(1))
+		case 2:
+			v = new(big.Int).Lsh(big.NewInt(1), uint(rng.Intn(bits)))
+		default:
+			v = new(big.Int).Rand(rng, lim)
+		}
+	}
+	v = new(big.Int).And(v, new(big.Int).Sub(new(big.Int).Lsh(big.NewInt(1), uint(bits)), big.NewInt(1)))
+	drawn[name] = v
+	return v
+}
+
+func AnyU64(name string) uint64 { return input(name, 64).Uint64() }
+func AnyU32(name string) uint32 { return uint32(input(name, 32).Uint64()) }
+func AnyU16(name string) uint16 { return uint16(input(name, 16).Uint64()) }
+func AnyU8(name string) uint8   { return uint8(input(name, 8).Uint64()) }
+func AnyInt(name string) int    { return int(input(name, 64).Uint64()) }
+func AnyI64(name string) int64  { return int64(input(name, 64).Uint64()) }
+func AnyI8(name string) int8    { return int8(input(name, 8).Uint64()) }
+func AnyBool(name string) bool  { return input(name, 1).Sign() != 0 }
 func AnyBytes(name string, b []byte) {
 	for i := range b {
 		b[i] = AnyU8(fmt.Sprintf("%s[%d]", name, i))
@@ -152,7 +209,7 @@ func IntLit(s string) Int {
 	}
 	return mkInt(v)
 }
-func AnyIntG(name string) Int { return mkInt(input(name)) }
+func AnyIntG(name string) Int { return mkInt(input(name, 256)) }
 func IntLE(b []byte) Int {
 	v := new(big.Int)
 	for i := len(b) - 1; i >= 0; i-- {
@@ -232,7 +289,7 @@ func BVDec(s string, w int) BV {
 	}
 	return mkBV(v, w)
 }
-func AnyBV(name string, w int) BV { return mkBV(input(name), w) }
+func AnyBV(name string, w int) BV { return mkBV(input(name, w), w) }
 func (a BV) Add(b BV) BV          { return mkBV(new(big.Int).Add(a.v, b.v), a.w) }
 func (a BV) Sub(b BV) BV          { return mkBV(new(big.Int).Sub(a.v, b.v), a.w) }
 func (a BV) Mul(b BV) BV          { return mkBV(new(big.Int).Mul(a.v, b.v), a.w) }
